@@ -3,6 +3,9 @@
 #include <cxxabi.h>
 #include <typeinfo>
 
+bool g_relCopy = false;
+void ResetCaseFlags() { g_relCopy = false; }
+
 Alpha::Alpha() :
 	otf(new TA::OnTheFlyAlphabet),
 	ptr(otf),
